@@ -57,6 +57,10 @@ MUTATIONS = [
     ("dask_expr/_expr.py", "            index == (self.npartitions - 1),", "            index == self.npartitions,", "vf.contracts.layers:EnforceDivisionsTask", "post:last-partition-flag"),
     ("dask_expr/_expr.py", "        dsk[(self._name, 0)] = (tuple, list(dsk.keys()))", "        dsk[(self._name, 0)] = (tuple, list(dsk.keys())[1:])", "vf.contracts.layers:LengthsLayer", "post:output-is-the-tuple-of-all-counts-in-order"),
     ("dask_expr/_expr.py", "            (name, i): (len, (self.frame._name, i))\n            for i in range(self.frame.npartitions)", "            (name, i): (len, (self.frame._name, i))\n            for i in range(self.frame.npartitions - 1)", "vf.contracts.layers:LengthsLayer", "post:one-len-task-per-input-partition"),
+    ("dask_expr/_concat.py", "                    dsk[(self._name, ctr)] = df._name, i\n", "                    dsk[(self._name, ctr)] = df._name, ctr\n", "vf.contracts.layers:StackPartitionLayer", "post:dataflow-frames-stacked-in-order"),
+    ("dask_expr/_concat.py", "                        kwargs,\n                    )\n                ctr += 1\n        return dsk", "                        kwargs,\n                    )\n                    ctr += 1\n        return dsk", "vf.contracts.layers:StackPartitionLayer", "inv-preserved:loop1"),
+    ("dask_expr/_concat.py", "                            [meta, (df._name, i)],", "                            [meta, (df._name, 0)],", "vf.contracts.layers:StackPartitionLayer", "post:dataflow-frames-stacked-in-order"),
+    ("dask_expr/_concat.py", "                    [(df._name, i) for df in dfs],", "                    [(df._name, i) for df in dfs[1:]],", "vf.contracts.layers:StackInterleavedLayer", "post:output-i-concatenates-partition-i-of-every-frame"),
     ("dask_expr/_repartition.py", "        nsplits[-1] += mod\n", "        nsplits[0] += mod\n", "vf.contracts.layers:MoreNSplits", "post:"),
     ("dask_expr/_repartition.py", "        return (None,) * (1 + sum(self._nsplits))", "        return (None,) * (1 + len(self._nsplits))", "vf.contracts.layers:MoreDivisions", "post:length-new+1"),
     ("dask_expr/io/io.py", "        for part, k in enumerate(self.operand(\"keys\")):\n            dsk[(self._name, part)] = k", "        for part, k in enumerate(sorted(self.operand(\"keys\"))):\n            dsk[(self._name, part)] = k", "vf.contracts.layers:FromGraphLayer", "HARMLESS-OR-UNDECIDED"),
